@@ -529,7 +529,7 @@ static void child_finish(void)
 
 static void report_crash(const char *id, int status, const char *errpath)
 {
-	char kind[200] = "unknown";
+	char kind[200] = "unknown", where[100] = "?";
 	FILE *f = fopen(errpath, "r");
 	if (WIFSIGNALED(status) && WTERMSIG(status) == SIGALRM)
 		strcpy(kind, "timeout");
@@ -547,6 +547,14 @@ static void report_crash(const char *id, int status, const char *errpath)
 				break;
 			}
 		}
+		/* innermost library frame */
+		while (fgets(line, sizeof(line), f)) {
+			char *q = strstr(line, " in ");
+			if (strstr(line, "    #") && q && !strstr(line, "interceptor") && !strstr(line, "__asan") && !strstr(line, "__ubsan")) {
+				sscanf(q + 4, "%99s", where);
+				break;
+			}
+		}
 		fclose(f);
 	}
 	{
@@ -557,7 +565,7 @@ static void report_crash(const char *id, int status, const char *errpath)
 		if ((q = strstr(kind, "_on_address")) != NULL)
 			*q = 0;
 	}
-	printf("endseq %s\ncrash %s %d %s\n", id, id, status, kind);
+	printf("endseq %s\ncrash %s %d %s@%s\n", id, id, status, kind, where);
 	fflush(stdout);
 	/* keep the full report for the log */
 	f = fopen(errpath, "r");
